@@ -1,0 +1,40 @@
+//go:build verif
+
+package errlogger
+
+// Contracts for the deductive checker in /verif (comment-only file; adds no code).
+//
+//@ func ErrLogger.HasError
+//@   requires !isnil(l)
+//@   ensures result == l.hasErrors
+//
+//@ func rel
+//@   trusted
+//
+//@ func ErrLogger.Errorpf
+//@   requires !isnil(l)
+//@   ensures l.hasErrors
+//@   modifies l.hasErrors
+//
+//@ func ErrLogger.Errorf
+//@   requires !isnil(l)
+//@   ensures l.hasErrors
+//@   modifies l.hasErrors
+//
+//@ func ErrLogger.GeneralError
+//@   requires !isnil(err)
+//@   requires !isnil(l)
+//@   ensures l.hasErrors
+//@   modifies l.hasErrors
+//@   call Error 0 assume true
+//
+//@ func ErrLogger.GeneralErrorf
+//@   requires !isnil(l)
+//@   ensures l.hasErrors
+//@   modifies l.hasErrors
+//
+//@ func ErrLogger.Infopf
+//@   requires !isnil(l)
+//
+//@ func ErrLogger.Infof
+//@   requires !isnil(l)
